@@ -481,6 +481,19 @@ func typeEdits(g *Gen, prog *GProgram, r *Rand) string {
 					s.Src = &GSource{Kind: SrcOverdraft, E: acct("world"), Bounded: lit("USD", bi(int64(r.Intn(50))))}
 				case 1:
 					s.Src = &GSource{Kind: SrcInorder, Subs: []*GSource{srcAcct("a"), {Kind: SrcOverdraft, E: acct(r.Pick([]string{"world", "b"}))}}}
+				case 2:
+					// caps nested in caps (each level has its own say on what is bounded), then something unbounded
+					inner := &GSource{Kind: SrcCapped, Cap: lit("USD", bi(int64(1+r.Intn(9)))), From: srcAcct("a")}
+					if r.Chance(1, 2) {
+						inner = &GSource{Kind: SrcCapped, Cap: lit("USD", bi(int64(1+r.Intn(9)))), From: &GSource{Kind: SrcAllot, Items: []*GSrcItem{
+							{Allot: &GAllot{Kind: AlRatio, E: g.ratio(bi(1), bi(2))}, From: srcAcct("a")}, {Allot: &GAllot{Kind: AlRemaining}, From: srcAcct("b")}}}}
+					}
+					outer := &GSource{Kind: SrcCapped, Cap: lit("USD", bi(int64(10+r.Intn(40)))), From: &GSource{Kind: SrcInorder, Subs: []*GSource{inner, srcAcct("c")}}}
+					last := &GSource{Kind: SrcOverdraft, E: acct("b")}
+					if r.Chance(1, 2) {
+						last = srcAcct("world")
+					}
+					s.Src = &GSource{Kind: SrcInorder, Subs: []*GSource{outer, last}}
 				}
 				return "make-send-all"
 			}
